@@ -22,6 +22,14 @@ Definition pfill : parser fillv :=
 Definition pspec : parser (result spectrum) :=
   u <- pwunit ;; y <- pvunit ;; w <- plist pQ ;; v <- plist pQ ;; pret (mk_spectrum w v u y).
 
+Definition pmeth : parser meth :=
+  t <- pZ ;; if t =? 0 then pret MLinear else if t =? 1 then pret MQuadratic else if t =? 2 then pret MCubic
+             else if t =? 3 then pret MUnknown else pfail.
+Definition psarg : parser sampling_arg :=
+  t <- pZ ;; if t =? 4 then pret ABadStr else if t =? 5 then pret ABadOther
+             else if t =? 0 then pret (AOk SMin) else if t =? 1 then pret (AOk SLeft) else if t =? 2 then pret (AOk SRight)
+             else if t =? 3 then (d <- pQ ;; pret (AOk (SNum d))) else pfail.
+
 Definition ewunit (u : wunit) : Z := match u with UM => 0 | UUm => 1 | UNm => 2 | UAng => 3 end.
 Definition evunit (u : vunit) : Z := match u with VNone => 0 | VPhotlam => 1 | VFlam => 2 | VWlam => 3 end.
 Definition exval (x : xval) : list Z :=
@@ -62,6 +70,13 @@ Definition run (inp : list Z) : list Z :=
     else if op =? 6 then
       match pall (u <- pwunit ;; f <- pfill ;; s <- pspec ;; l <- plist pQ ;; pret (u, f, s, l)) rest with
       | Some (u, f, s, l) => eresult (elist eQ) (rbind s (fun a => Ok (sample a l f u)))
+      | None => emalformed end
+    else if op =? 7 then
+      (* the named methods with every argument form: method kind, sampling form, fill value *)
+      match pall (mt <- pmeth ;; o <- pbinop ;; a <- psarg ;; f <- pfill ;; s1 <- pspec ;; s2 <- pspec ;;
+                  pret (mt, o, a, f, s1, s2)) rest with
+      | Some (mt, o, a, f, s1, s2) =>
+          eresult erspec (rbind s1 (fun x => rbind s2 (fun y => method_call mt o x (PSpectrum y) a f)))
       | None => emalformed end
     else emalformed
   | _ => emalformed
